@@ -6,9 +6,10 @@ sys.path.insert(0, VERIF)
 from checks_config import CHECKS, NOT_APPLICABLE, ENGINES
 
 props = [json.loads(l)["id"] for l in open(os.path.join(VERIF, "properties.jsonl"))]
+enabled = set(open(os.path.join(VERIF, "enabled_checks.txt")).read().split())
 checks = []
 for pid in props:
-    if pid not in CHECKS:
+    if pid not in CHECKS or pid not in enabled:
         continue
     c = CHECKS[pid]
     checks.append({
@@ -23,7 +24,7 @@ for pid in props:
         "technique": c["technique"],
     })
 na = [{"property_id": p, "reason": NOT_APPLICABLE.get(p, "check not built yet in this session (work in progress); no claim is made")}
-      for p in props if p not in CHECKS]
+      for p in props if p not in CHECKS or p not in enabled]
 m = {
     "version": 1,
     "setup_cmd": "./check --setup",
